@@ -4,6 +4,7 @@ CONSTANTS
   MaxTr = 1
   MaxResp = 2
   Deviations = {}
+  CheckDeviations = {}
   Emit = FALSE
   SampleMod = 1
   SampleRes = 0
